@@ -519,7 +519,7 @@ impl<PL: ProgressLog> BvCompConf<PL> {
     pub fn comp_labeled_lender<E, L, SLC>(
         &mut self,
         iter: L,
-        store_labels_config: SLC,
+        mut store_labels_config: SLC,
         expected_num_nodes: Option<usize>,
     ) -> Result<u64>
     where
@@ -548,9 +548,14 @@ impl<PL: ProgressLog> BvCompConf<PL> {
         let offsets_path = self.basename.with_extension(OFFSETS_EXTENSION);
         let offset_writer = OffsetsWriter::from_path(offsets_path, true)?;
 
-        let mut store_labels =
-            store_labels_config.new_storage(&labels_path, &label_offsets_path)?;
-        store_labels.init()?;
+        // As in the parallel case, the labels are stored in a part that the
+        // configuration then copies into the final files, undoing any part
+        // compression (e.g., Zstandard)
+        let part_labels_path = labels_path.with_extension(format!("{LABELS_EXTENSION}.part"));
+        let part_label_offsets_path =
+            label_offsets_path.with_extension(format!("{OFFSETS_EXTENSION}.part"));
+        let store_labels =
+            store_labels_config.new_storage(&part_labels_path, &part_label_offsets_path)?;
 
         self.pl
             .item_name("node")
@@ -598,6 +603,15 @@ impl<PL: ProgressLog> BvCompConf<PL> {
 
             bvcomp.flush()?
         };
+
+        store_labels_config.init_concat(&labels_path, &label_offsets_path)?;
+        store_labels_config.concat_part(
+            &part_labels_path,
+            comp_stats.labels_written_bits,
+            &part_label_offsets_path,
+            comp_stats.label_offsets_written_bits,
+        )?;
+        store_labels_config.flush_concat()?;
 
         if let Some(num_nodes) = expected_num_nodes {
             if num_nodes != comp_stats.num_nodes {
